@@ -314,19 +314,24 @@ func c09Overlap(c *fw.Ctx) {
 		c.Infra("not enough string characteristics")
 		return
 	}
-	kb, err := refctl.Dial(s.w.Addr)
-	if err != nil {
-		c.Infra(err.Error())
-		return
+	// both controllers use a fixed 64 KiB receive buffer: with the sender's ≤4 MiB send buffer a 12 MiB response
+	// cannot be absorbed by the kernel, so the server is blocked inside it while the reader pauses
+	var ks [2]*refctl.Ctl
+	for i := range ks {
+		k, err := refctl.DialRcvBuf(s.w.Addr, 64<<10)
+		if err != nil {
+			c.Infra(err.Error())
+			return
+		}
+		defer k.Close()
+		k.Timeout = 60 * time.Second
+		if _, ec, err := refctl.PairVerify(k, idL, refctl.Seed32(fmt.Sprintf("c09-ov%d", i)), nil); err != nil || ec != 0 {
+			c.Infra("verify failed")
+			return
+		}
+		ks[i] = k
 	}
-	defer kb.Close()
-	kb.Timeout = 60 * time.Second
-	s.k.Timeout = 60 * time.Second
-
-	if _, ec, err := refctl.PairVerify(kb, idL, refctl.Seed32("c09-b"), nil); err != nil || ec != 0 {
-		c.Infra("verify B failed")
-		return
-	}
+	ka, kb := ks[0], ks[1]
 	for _, sz := range []int{5000, 6000, 12 << 20} {
 		for _, order := range []string{"A-blocked-B-complete", "B-blocked-A-complete"} {
 			c.Eval(1)
